@@ -2,6 +2,7 @@ package hybrid
 
 import (
 	"context"
+	"errors"
 	"time"
 
 	"tunnox-core/internal/core/storage/types"
@@ -16,13 +17,16 @@ type c14Item struct {
 type c14Tier struct {
 	name    string
 	m       map[string]*c14Item
-	touched int // operations that reached this tier
+	touched int  // operations that reached this tier
+	failSet bool // the next Set on this tier fails (one transient fault)
 	yield   bool
 	// ghost: a read-modify-write on watchKey overlapped another one
 	watchKey    string
 	openReads   int
 	interleaved bool
 }
+
+var errC14Tier = errors.New("tier unavailable")
 
 func newC14Tier(name string) *c14Tier { return &c14Tier{name: name, m: map[string]*c14Item{}} }
 
@@ -35,6 +39,10 @@ func (t *c14Tier) op() {
 
 func (t *c14Tier) Set(key string, value any, ttl time.Duration) error {
 	t.op()
+	if t.failSet {
+		t.failSet = false
+		return errC14Tier
+	}
 	if key == t.watchKey && t.watchKey != "" {
 		if t.openReads > 1 {
 			t.interleaved = true
@@ -95,8 +103,8 @@ func (p c14Persist) QueryByPrefix(prefix string, limit int) (map[string]string, 
 }
 
 type c14Node struct {
-	h      *Storage
-	local  *c14Tier
+	h     *Storage
+	local *c14Tier
 }
 
 type c14World struct {
@@ -183,8 +191,21 @@ func Harness_C14_routing() {
 	a, b := w.nodes[0], w.nodes[1]
 	sharedClass := cat == DataCategoryShared || cat == DataCategorySharedPersistent
 	switch verif_Choose(5) {
-	case 0: // Set on A, Get/Exists on B
-		verif_Assert("C14.route.set", a.h.Set(key, int64(7), time.Minute) == nil)
+	case 0: // Set on A, Get/Exists on B; the shared cache may fail this one write
+		faulty := verif_Bool()
+		if faulty {
+			w.shared.failSet = true
+		}
+		serr := a.h.Set(key, int64(7), time.Minute)
+		w.shared.failSet = false
+		if faulty && serr != nil {
+			// the write was refused: nobody may see it, and nothing is asserted about tiers
+			_, gerr := b.h.Get(key)
+			verif_Assert("C14.route.refused_write_invisible", !sharedClass || gerr != nil)
+			verif_Cover("C14.route.write_refused")
+			return
+		}
+		verif_Assert("C14.route.set", serr == nil)
 		if sharedClass {
 			v, err := b.h.Get(key)
 			verif_Assert("C14.route.get_other_node", err == nil && v == any(int64(7)))
